@@ -19,7 +19,7 @@ ASSUMPTIONS = ["band: -eps <= v*-x <= threshold*T + eps, T = exact max expected 
 TIMEOUT = 1800
 
 CLASSES_Q = [("G-ACY", 700), ("G-ACYNF", 200), ("G-CYC", 700), ("G-CYCNF", 150), ("G-SLOW", 250), ("G-EC", 500),
-             ("G-TIE", 250), ("G-TIEC", 250), ("G-DEAD", 500), ("G-TINY", 150), ("G-LEX", 250)]
+             ("G-TIE", 250), ("G-TIEC", 250), ("G-DEAD", 500), ("G-TINY", 150), ("G-LEX", 250), ("G-TINYB", 200), ("G-INIT0F", 100), ("G-INIT0NF", 100)]
 THRESHOLDS = [1e-2, 1e-4, 1e-9]
 
 
@@ -54,7 +54,8 @@ def decide(gd, idx, cls, do_thresholds=True, do_run_games=False):
     except OracleInconclusive as e:
         res.update(verdict="inconclusive", what="oracle: " + str(e))
         return res
-    limit = monitors.step_limit(n, m, tmax if tmax is not None else 5000)
+    from . import solver_common as sc
+    limit = sc.limit_for(an)
     f = _features(an)
     res["nontrivial"] = f["fractional"] and (f["cyclic"] or f["nonstopping"] or f["p2choice"] or f["multifinal"])
     for k, v in f.items():
